@@ -61,20 +61,27 @@ def generate(rng, tier):
                 trace = muxgen.gen_trace(rng, typ, nkeys=rng.choice([1, 2]), bursts=True, max_items=rng.choice([None, 3]))
             case['trace'] = error_ended(rng, trace)
         cases.append(case)
-    for _ in range({'quick': 12, 'thorough': 300, 'search': 3}[tier]):
-        # scale: accumulators beyond 2**31 / 2**53 / close to 2**63, long keys, hundreds of live keys
-        node = rng.choice([['scan', ['add'], enc(rng.choice([0, 2 ** 31 - 5, 2 ** 40])), rng.randint(0, 1), None], ['count', 0], ['count', 1],
-                           ['scan', ['max'], enc(0), 1, None], ['to_list'], ['to_array', 'q'], ['sum', None, 1], ['batch', 300],
-                           ['scan', ['mul'], enc(3), 0, None]])
-        shape = rng.choice(['long', 'long2', 'many', 'long_reuse'])
-        trace = muxgen.gen_trace_scale(rng, shape)
-        if node[0] == 'scan' and node[1] == ['add'] and rng.random() < 0.7:
-            bigv = rng.choice([2 ** 30, 2 ** 31, 2 ** 52])
-            trace = [(['n', e[1], enc(bigv + dec(e[2]))] if e[0] == 'n' else e) for e in trace]
-        if node[0] == 'scan' and node[1] == ['mul']:
-            trace = [e for e in trace if e[0] != 'n'] if False else [(['n', e[1], enc(1 + dec(e[2]) % 2)] if e[0] == 'n' else e) for e in trace[:60]] + \
-                [e for e in trace[60:] if e[0] != 'n']
-        cases.append({'ast': [node], 'trace': trace, 'plain': False, 'scale': True})
+    # scale: accumulators beyond 2**31 / 2**53 / close to 2**63, long keys, hundreds of live keys; a fixed list of
+    # operators, every one in every run, each on a key longer than its size parameter
+    scale_nodes = [['scan', ['add'], enc(0), 0, None], ['scan', ['add'], enc(2 ** 31 - 5), 1, None], ['scan', ['add'], enc(2 ** 40), 0, None],
+                   ['count', 0], ['count', 1], ['scan', ['max'], enc(0), 1, None], ['to_list'], ['to_array', 'q'], ['sum', None, 1],
+                   ['batch', 257], ['batch', 300], ['batch', 256], ['scan', ['mul'], enc(3), 0, None]]
+    for _ in range({'quick': 1, 'thorough': 20, 'search': 0}[tier]):
+        for node in scale_nodes:
+            shape = rng.choice(['long', 'long2', 'long_reuse']) if node[0] == 'batch' else rng.choice(['long', 'long2', 'many', 'long_reuse'])
+            trace = muxgen.gen_trace_scale(rng, shape)
+            if node[0] == 'batch':
+                # at least one key with more than two batches worth of items
+                k0 = trace[0][1]
+                dpos = next(i for i, e in enumerate(trace) if e[0] == 'd' and e[1] == k0)
+                trace = trace[:dpos] + [['n', k0, enc(i % 13)] for i in range(2 * node[1] + 9)] + trace[dpos:]
+            if node[0] == 'scan' and node[1] == ['add']:
+                bigv = rng.choice([2 ** 30, 2 ** 31, 2 ** 52])
+                trace = [(['n', e[1], enc(bigv + dec(e[2]))] if e[0] == 'n' else e) for e in trace]
+            if node[0] == 'scan' and node[1] == ['mul']:
+                trace = [(['n', e[1], enc(1 + dec(e[2]) % 2)] if e[0] == 'n' else e) for e in trace[:60]] + \
+                    [e for e in trace[60:] if e[0] != 'n']
+            cases.append({'ast': [node], 'trace': trace, 'plain': False, 'scale': True})
     return cases
 
 
